@@ -15,7 +15,11 @@ fn run_one(text: &str, strict: bool, spec: usize, entry: usize, tmp: &std::path:
     let spec_s = match spec {
         0 => None,
         1 => Some(SPEC_VALID.to_string()),
-        _ => Some(SPEC_INVALID.to_string()),
+        // the invalid built-in specification: the (malformed) A2ML text of the input itself when it has one
+        _ => Some(match (text.find("/begin A2ML"), text.find("/end A2ML")) {
+            (Some(a), Some(b)) if a + 11 < b => text[a + 11..b].to_string(),
+            _ => SPEC_INVALID.to_string(),
+        }),
     };
     let r = catch(|| match entry {
         0 => match a2lfile::load_from_string(text, spec_s, strict) {
@@ -92,6 +96,34 @@ pub fn run(args: &Args) -> Report {
             inputs.push((format!("ASAP2_VERSION 1 71 /begin PROJECT p \"\" /begin MODULE m \"\" /begin A2ML block \"IF_DATA\" {} int; {} ; /end A2ML /end MODULE /end PROJECT", "struct { ".repeat(depth), "} ".repeat(depth)), "nesting"));
             inputs.push((format!("ASAP2_VERSION 1 71 /begin PROJECT p \"\" /begin MODULE m \"\" {} {} /end MODULE /end PROJECT", "/begin UNKNOWN ".repeat(depth), "/end UNKNOWN ".repeat(depth)), "nesting"));
         }
+        // malformed A2ML definitions with multi-byte characters at every alignment (error texts are cut out of the
+        // input by byte position)
+        for d in 0..(if args.thorough { 1500 } else { 150 }) {
+            let case = crate::a2mlgen::gen_a2ml(&mut rng, 1 + d % 3);
+            let mut words: Vec<String> = case.a2ml.split(' ').map(|w| w.to_string()).collect();
+            let i = rng.below(words.len());
+            match rng.below(3) {
+                0 => {
+                    words.remove(i);
+                }
+                1 => words[i] = ["{", "}", ";", "(", ")*", "\"x", "struct", "[", "=", "/*", "@", "\u{e4}"][rng.below(12)].to_string(),
+                _ => words.truncate(i.max(1)),
+            }
+            let bad = words.join(" ");
+            let mut out = String::new();
+            for (k, c) in bad.chars().enumerate() {
+                out.push(c);
+                if k + 24 >= bad.chars().count().saturating_sub(rng.below(60)) || rng.chance(1, 9) {
+                    if rng.chance(1, 3) {
+                        out.push(['\u{e4}', '\u{a7}', '\u{20ac}', '\u{1f600}'][rng.below(4)]);
+                    }
+                }
+            }
+            for _ in 0..rng.below(4) {
+                out.push(['\u{e4}', '\u{20ac}', 'x', ' '][rng.below(4)]);
+            }
+            inputs.push((format!("ASAP2_VERSION 1 71 /begin PROJECT p \"\" /begin MODULE m \"\" /begin A2ML {out} /end A2ML /begin IF_DATA X 1 /end IF_DATA /end MODULE /end PROJECT"), "a2ml-multibyte"));
+        }
         // A2ML / IF_DATA corner cases (several were panics or hangs on the pinned tree)
         for s in [
             "ASAP2_VERSION 1 71 /begin PROJECT p \"\" /begin MODULE m \"\" /begin A2ML \" /end A2ML /end MODULE /end PROJECT",
@@ -114,7 +146,9 @@ pub fn run(args: &Args) -> Report {
             rep.tie(format!("lex {}", hex(text.as_bytes())), lex_answer(text));
         }
         // configurations: all 18 for a sample, a rotating subset otherwise
-        let configs: Vec<(bool, usize, usize)> = if i % 9 == 0 || family.ends_with("corner") || *family == "nesting" {
+        let configs: Vec<(bool, usize, usize)> = if *family == "a2ml-multibyte" {
+            vec![(i % 2 == 0, 0, 0), (i % 2 == 1, 2, i % 3)]
+        } else if i % 9 == 0 || family.ends_with("corner") || *family == "nesting" {
             (0..18).map(|k| (k % 2 == 0, (k / 2) % 3, k / 6)).collect()
         } else {
             vec![(i % 2 == 0, (i / 2) % 3, if i % 11 == 0 { 2 } else { (i / 6) % 2 })]
